@@ -218,6 +218,10 @@ def main():
         remaining = budget - (time.time() - t_start - t_build)
         fair = remaining * weights[i] / sum(weights[i:])
         share = max(1.0, min(remaining - 1.0 * (len(legs) - i - 1), 5.0 * fair))
+        try:
+            os.utime(os.path.dirname(os.path.dirname(bins[leg["harness"]])), None)   # keeps the build tree of a running check out of the garbage collection of concurrent builds
+        except OSError:
+            pass
         r = run_leg(prop, leg, a.tier, bins[leg["harness"]], share, known, seed)
         results.append(r)
         res = r["res"] or {}
